@@ -221,7 +221,7 @@ def run(ctx):
                 if r.get("recycled"):
                     nrecycled += 1
                     nontriv.add((cur["kind"], tuple(cur["muts"]) if cur["kind"] != "conc" else cur["id"], cur.get("mode"),
-                                 cur.get("ending"), cur.get("probe"), cur.get("shape"), cur.get("trace")))
+                                 cur.get("ending"), cur.get("probe"), cur.get("shape"), cur.get("trace"), cur.get("setv")))
             elif '"ev":"Dirty"' in ln:
                 dirty_by_comp[json.loads(ln)["comp"]] += 1
         for ln in _unknown_bad(ctx, t, bad, tl):
